@@ -19,6 +19,10 @@ SPACING = [(b"", b""), (b" ", b" "), (b" _\n", b" "), (b"", b"\t")]
 EMBED = [(b"", b""), (b"x = ", b";"), (b"\n", b" 'c")]
 
 
+# multi-character contents that look like markup / escapes / operator spellings: a literal's content is data, whatever it resembles
+WORDS = [b"&lt;", b"&gt;", b"&amp;", b"&quot;", b"&#43;", b"a&lt;b&gt;", b"&amp;amp;", b"+=", b"&&", b"%41", b"^", b"a", b""]
+
+
 def contents(maxlen):
     for L in range(0, maxlen + 1):
         for c in itertools.product(CH, repeat=L):
@@ -32,7 +36,8 @@ def describe(tier):
             f"literal contents = every string of length 0..{L2} over {[c.decode() for c in CH]} (so literals that contain, start or end with a joining operator "
             "occur; only literals that ARE a bare operator are excluded, as in the statement) x quote in {',\"}. Concatenation: every chain of 2 literals "
             f"(contents <= {L2}), 3 literals (contents <= 1) and 4 literals (contents from a 4-menu) x every separator spelling {[s.decode() for s in SEPS]} x 4 spacings "
-            "(none, spaces, VB line continuation, tab) x 3 embeddings; padding runs of 100..5000 blanks / underscores / tabs / continuations around every operator spelling. Reversal: reverse(/reversed(/StrReverse( x inner spacing x every literal. "
+            "(none, spaces, VB line continuation, tab) x 3 embeddings; every chain of 2 and 3 literals, every reversal and every replacement over the markup-like contents "
+            f"{[w.decode() for w in WORDS]}; padding runs of 100..5000 blanks / underscores / tabs / continuations around every operator spelling. Reversal: reverse(/reversed(/StrReverse( x inner spacing x every literal. "
             "JS regex patterns that contain quote characters (the pattern is not a literal). Replacement: 4 dialects (the JS regex dialect with every flag set of {'', g, i, gi, m, gim}) x (x, a, b) over the same literal set with non-empty a (overlapping occurrences such as aaa/aa, b containing a, "
             "empty b) x spacing. Each expression is given to the dialect's decoder; the COMPLETE result list must equal the single expected node "
             "(type, label, value from Python semantics on the unquoted contents: join / [::-1] / bytes.replace, span = whole expression). Every chain "
@@ -55,6 +60,7 @@ def plan(tier, seed):
     units = [("cat2", tier, i) for i in range(len(CH) + 1)]
     units += [("cat3", tier), ("cat4", tier), ("catlong", tier), ("jsquoted", tier), ("rev", tier)]
     units += [("repl", tier, d, i) for d in range(4) for i in range(len(CH) + 1)]
+    units += [("words", tier, i) for i in range(len(WORDS))]
     return units
 
 
@@ -220,6 +226,29 @@ def run_unit(unit, rec):
                                 expect_one(rec, "C15.replace", fn, data, exp, {"kind": "repl", "dialect": 3, "data": data, "x": x, "a": a, "b": b, "flags": flags, "spell": 0,
                                                                               "start": len(pre), "end": len(pre) + len(expr), "q": q}, scan=False)
         rec.sample({"family": "js-regex-quoted-patterns", "expressions": n})
+    elif kind == "words":
+        first = WORDS[unit[2]]
+        n = run_cat(rec, ((first, b) for b in WORDS), all_quotes, tier, scan_every=5)
+        n += run_cat(rec, ((first, b, c) for b in WORDS for c in WORDS), lambda k: [(b'"',) * k, (b"'",) * k], tier, scan_every=13)
+        for name, fn, typ, lab in REV:
+            for c in (first, first[::-1]):
+                for q in (b'"', b"'"):
+                    expr = name + lit(c, q) + b")"
+                    data = b"x = " + expr + b";"
+                    n += 1
+                    expect_one(rec, "C15.reverse", fn, data, (typ, c[::-1], lab, 4, 4 + len(expr)), {"kind": "rev", "data": data, "content": c, "start": 4, "end": 4 + len(expr), "fn": name}, scan=False)
+        for d in range(4):
+            for a in WORDS:
+                if not a or (d == 3 and any(ch in JS_META for ch in a)):
+                    continue
+                for b in (b"", b"<", first):
+                    x = b"z" + a + first + a
+                    expr, fn, typ, lab = repl_expr(d, x, a, b, b'"', SPACING[0], b"g", SPELLINGS[0])
+                    data = b"x = " + expr + b";"
+                    n += 1
+                    expect_one(rec, "C15.replace", fn, data, (typ, x.replace(a, b), lab, 4, 4 + len(expr)),
+                               {"kind": "repl", "dialect": d, "data": data, "x": x, "a": a, "b": b, "flags": b"g", "spell": 0, "start": 4, "end": 4 + len(expr)}, scan=False)
+        rec.sample({"family": "markup-like-contents", "first": first, "expressions": n})
     elif kind == "cat4":
         menu = [b"a", b"", b"+b", b" "]
         n = run_cat(rec, itertools.product(menu, repeat=4), lambda k: [(b'"',) * k, (b"'",) * k, (b'"', b"'") * (k // 2)], tier)
